@@ -194,5 +194,5 @@ def cases(draw, fast=True):
 
 
 def subs(tier):
-    return [Sub("haissinski", cases(fast=(tier == "quick")), run_case, quick=96, thorough=480, needs=("rel", "h5x"), shrink_budget=10,
+    return [Sub("haissinski", cases(fast=(tier == "quick")), run_case, quick=96, thorough=1600, needs=("rel", "h5x"), shrink_budget=10,
                 max_wall={"quick": 500, "thorough": 3000})]
